@@ -173,9 +173,9 @@ Proof.
     clear Hplain.
     match type of Hf with (if ?b then _ else _) = _ => destruct b eqn:Hc; [|discriminate Hf] end.
     apply andb_prop in Hc as [Hc Hfb]. apply andb_prop in Hc as [Hfr Hpok].
-    match type of Hfb with is_some ?x = true => destruct x as [scout|] eqn:Hfbody; [|discriminate Hfb] end.
+    rename Hfb into Hfbody.
     cbn [compile_stmt] in Hy. rewrite definition_fun in Hy. mon Hy. fresh_all.
-    destruct (L_fb_all pv sv bound u _ n k body 0 (c + 1) a0 c1 _ scout l Hm0 Hfbody) as (bb & l1 & Hsb).
+    destruct (L_fb_all pv sv bound u _ n k body _ 0 (c + 1) a0 c1 _ l Hm0 Hfbody) as (bb & l1 & Hsb).
     pose proof Hsb as (_ & Hcc1 & Hfr1 & _).
     destruct (fresh_id_inv _ _ _ _ _ _ Hfr) as (_ & _ & _ & Hvb).
     assert (Hl1 : forall v, v < bound -> alut_get l1 v = None) by (intros v Hv; rewrite Hfr1 by lia; apply Hl; exact Hv).
@@ -260,23 +260,23 @@ Proof.
     (* a function *)
     match type of Hf with (if ?b then _ else _) = _ => destruct b eqn:Hc; [|discriminate Hf] end.
     apply andb_prop in Hc as [Hc Hfb]. apply andb_prop in Hc as [Hfr Hpok].
-    set (ps := param_ids params) in *. set (ks := param_kinds params) in *. set (fl' := (var, KF ks KP) :: fl) in *.
-    destruct (frag_stmts pv sv bound (snd (bind_scope ps ks sc fl')) k (fst (bind_scope ps ks sc fl')) body) as [scout|] eqn:Hfbody; [|discriminate Hfb].
+    set (ps := param_ids params) in *. set (ks := param_kinds params) in *. set (rk := kind_of_ty ret) in *. set (fl' := (var, KF ks rk) :: fl) in *.
+    rename Hfb into Hfbody.
     assert (Hlks : length ks = length ps) by (unfold ks, ps, param_kinds, param_ids; rewrite !map_length; reflexivity).
     cbn [compile_stmt] in Hy. rewrite definition_fun in Hy. fold ps in Hy. mon Hy. fresh_all. rename a0 into bc.
     rewrite exec_def_fun in Hev. fold ps in Hev.
     apply ucovers_cons in Huy as [_ Huy]. apply ucovers_app in Huy as [Hubc _].
-    destruct (L_fb_all pv sv bound u _ (S n') k body 0 (c + 1) bc c1 _ scout l Hm0 Hfbody) as (bb & l1 & Hsb).
+    destruct (L_fb_all pv sv bound u _ (S n') k body rk 0 (c + 1) bc c1 _ l Hm0 Hfbody) as (bb & l1 & Hsb).
     pose proof Hsb as (Hemb & Hcc1 & Hfr1 & Hnlb).
     destruct (fresh_id_inv _ _ _ _ _ _ Hfr) as (Hnin & Hnpv & Hnsv & Hvb).
     destruct (L_items (S n') k items c1 ys c' sc fl' scf flf l1 Hys Hf) as (_ & _ & (_ & Hc1c' & _) & _);
       [intros v Hv; rewrite Hfr1 by lia; apply Hlb; exact Hv | lia |].
     assert (Hlut1 : lut_ok bound l (c + 1) c1) by (eapply lut_ok_sub; [exact Hlut | lia | lia]).
     assert (HEf1 : E_free E (c + 1) c1) by (eapply E_free_sub; [exact HEf | lia | lia]).
-    pose proof (rel_define_function pv sv bound u fl W sc e st E stL var ps ks body (S n') k scout bc 0 (c + 1) c1 l
+    pose proof (rel_define_function pv sv bound u fl W sc e st E stL var ps ks rk body (S n') k bc 0 (c + 1) c1 l
                 Hrel Hfr Hpok Hlks Hfbody Hm0 Hubc ltac:(lia) Hlut1 HEf1) as Hrel1.
     set (E1 := sset (fmt_var var) (s_ncell stL) E) in *.
-    set (d := mkFdyn var ps ks body sc fl' (S n') k scout bc 0 (c + 1) c1 l (length (SyltSem.cells st)) (length (SyltSem.clos st))
+    set (d := mkFdyn var ps ks rk body sc fl' (S n') k bc 0 (c + 1) c1 l (length (SyltSem.cells st)) (length (SyltSem.clos st))
                      (def_env var e st) (s_ncell stL) (s_nclo stL) E1) in *.
     assert (Hbb : bb = fbody u d) by (unfold fbody; cbn [d fd_lut fd_code]; apply (Emits_block_fun u l bc bb l1 Hemb)).
     assert (Hx1 : Exec E (SLocalFun (fmt_var var) (map fmt_var ps) bb) stL (ROk (E1, SigNormal) (lua_def_state stL E1 ps bb)))
@@ -491,13 +491,13 @@ Proof.
   { destruct ra as [v|o|cc]; [exact I | | destruct cc; exact I]. cbn in Hgood. destruct o; try destruct Hgood; try exact I.
     exfalso. pose proof (SemSane.s_apply _ (SemSane.sane_all (S (S f'))) (SyltSem.SClos (fd_ci d)) [] stg) as Hq. rewrite Hap in Hq. exact Hq. }
   assert (Hargs0 : Forall3 (arel Wg) (fd_pk d) [] []) by (rewrite Hpk; constructor).
-  pose proof (proj2 (proj2 (proj2 (proj2 (proj2 (P_all pv bound bound u (S (S f')) flg Wg))))) d [] [] scg eg stg Eg stLg ra sta
+  pose proof (proj1 (proj2 (proj2 (proj2 (proj2 (proj2 (P_all pv bound bound u (S (S f')) flg Wg)))))) d [] [] scg eg stg Eg stLg ra sta
                     Hrelg Hd Hargs0 Hap Hinta) as Hcall.
   assert (Hev_s : Eval Eg (EVar (fmt_var s)) stLg (ROk (VFun (fd_fid d)) stLg)).
   { rewrite <- Hcell. apply Eval_local. exact HlkL. }
   destruct ra as [v|o|cc]; [| |destruct Hcall].
   - cbv beta iota. cbn [SyltSem.r_final SyltSem.r_trace].
-    destruct Hcall as (vs & stL' & Hc & _ & Hrelf & _).
+    destruct Hcall as (Wf & vs & stL' & _ & Hc & _ & Hrelf & _).
     pose proof (r_trace _ _ _ _ _ _ _ _ _ _ _ Hrelf) as Htr.
     pose proof (Exec_local Eg [fmt_var cg] [ECall (EVar (fmt_var s)) []] stLg vs stL'
                   (EvalList_one _ _ _ _ (EvalMulti_call _ _ _ _ _ (EvalCall_intro _ _ _ _ _ _ _ _ _ Hev_s (EvalList_nil Eg stLg) Hc)))) as Hx3.
